@@ -314,13 +314,15 @@ def _c20(ctx):
                 {"tag": "claudeuser", "user": "claudeuser", "group": "nogroup", "uid": 1000, "gid": 65534,
                  "initgroups": False, "worker_class": "sync"},
             ]
-            for wc in ("gevent", "eventlet"):
-                try:
-                    __import__(wc)
-                except Exception:   # noqa
-                    continue
-                servers.append({"tag": wc, "user": "www-data", "group": "33", "uid": 33, "gid": 33,
-                                "initgroups": False, "worker_class": wc})
+        # the worker classes that override init_process (monkey patching before the generic set-up): what the application's
+        # module-level code runs as is part of "the worker's whole life" - one of them in the quick tier, both in the thorough
+        for wc in (("gevent",) if ctx.quick else ("gevent", "eventlet")):
+            try:
+                __import__(wc)
+            except Exception:   # noqa
+                continue
+            servers.append({"tag": wc, "user": "www-data", "group": "33", "uid": 33, "gid": 33,
+                            "initgroups": False, "worker_class": wc})
         fs = ex.submit(call_driver, "server", servers, 900) if os.geteuid() == 0 else None
         traces = []
         # (a) fake kernel: the complete product
